@@ -406,7 +406,8 @@ def run_case(case):
                 for k in range(3):
                     q0 = sum(p[7] * p[3 + k] for p in Sl)
                     q1 = sum(p[7] * p[3 + k] for p in postlive)
-                    qs = sum(abs(p[7] * p[3 + k]) for p in Sl) + 1e-300
+                    # the resolvers rotate into the line of centres and back: rounding in one component scales with the whole momentum vector
+                    qs = sum(abs(p[7] * p[3 + j]) for p in Sl for j in range(3)) + 1e-300
                     if not abs(q1 - q0) <= 1024 * EPS * len(Sl) * qs:
                         add('step:total-momentum-changed:%s' % resolver, '%s: component %d %r -> %r' % (desc, k, q0, q1))
                     if resolver == 'merge':
